@@ -291,7 +291,7 @@ def r2(idx, rep):
     fr = idx.method("FileCacher", "_cached_lines_and_headers")
     cw = idx.method("Cache", "cache_text")
     cr = idx.method("Cache", "cached_text")
-    rep.analysed(fw, fr, cw, cr, idx.method("Cache", "_cache_name"))
+    rep.analysed(fw, fr, cw, cr, *K.opt(idx, "Cache", "_cache_name"))
     header_sets = [["a", "b", "c"], ['"q', "b c", 'x"y'], ["first, last", "x"], [" lead", "trail ", ""], ["multi\nline", "z"], ["'single'", ";semi", "|pipe"], ['"id" no', "n"], ["ü", "日本"]]
     def _safe(fn):
         def h(i, c, r, a, k):
